@@ -228,6 +228,8 @@ class Executor:
         self.native_by_id = {}
         self.sol = smt.IncSolver(V.GLOBAL_FACTS)
         self.deferred = 0
+        self.transparent = set()
+        self.lemmas_used = set()
         from . import lib
         lib.install(self)
 
@@ -464,6 +466,14 @@ class Executor:
                 if rf is not None and rf[0].a.get_id() == o.a.get_id() and \
                         rf[0].lo.get_id() == o.lo.get_id() and rf[0].hi.get_id() == o.hi.get_id():
                     return r
+            # `if s: s = QUOTER(s)`: a quoter maps '' to '' (its contract), so when the unquoted
+            # arm is taken only for the empty string the quoted value stands for both arms
+            for r, o, oc in ((a, b, z3.Not(c)), (b, a, c)):
+                qb = r.tags.get("quoted_by")
+                if qb is not None and qb[1].a.get_id() == o.a.get_id() and \
+                        qb[1].lo.get_id() == o.lo.get_id() and qb[1].hi.get_id() == o.hi.get_id():
+                    if self.sol.check(z3.And(oc, o.len() > 0), timeout_ms=500) == z3.unsat:
+                        return r
             if self.merging != "all" and a.a.get_id() != b.a.get_id():
                 raise Unmergeable()      # light policy: no ite over different arrays
             arr = smt.arr_ite(c, a.a, b.a)
